@@ -206,18 +206,264 @@ def hoist_walrus(nz, body, fi):
 class Fold(ast.NodeTransformer):
     def __init__(self, nz):
         self.nz = nz
+        self.body = None
+
+    def _literal(self, e):
+        """module-level or single-assignment local literal sequence an expression stands for"""
+        lit = self._module_literal(e)
+        if lit is e and isinstance(e, ast.Name) and self.body is not None:
+            r = literal_of(self.nz, self.body, self.nz.cur, e, (ast.Tuple, ast.List))
+            if r is not None:
+                return r[0]
+            # bound in the statement just before the one being rewritten: nothing can have changed in between
+            pv = getattr(self, "_prev_stmt", None)
+            if isinstance(pv, ast.Assign) and len(pv.targets) == 1 and isinstance(pv.targets[0], ast.Name) and pv.targets[0].id == e.id \
+                    and isinstance(pv.value, (ast.Tuple, ast.List)) and single_assignment(self.body, e.id) is pv:
+                return pv.value
+        return lit
+
+    def _filtered_comp(self, v):
+        """[elt for t in LIT if cond] over a literal sequence -> [(cond_i, elt_i)], else None"""
+        if not (isinstance(v, ast.ListComp) and len(v.generators) == 1 and v.generators[0].ifs and not v.generators[0].is_async):
+            return None
+        g = v.generators[0]
+        lit = self._literal(g.iter)
+        if not (isinstance(lit, (ast.Tuple, ast.List)) and 0 < len(lit.elts) <= MAX_UNROLL and all(is_pure(e) for e in lit.elts)):
+            return None
+        rows = []
+        for e in lit.elts:
+            if isinstance(g.target, ast.Name):
+                sub = {g.target.id: e}
+            elif isinstance(g.target, (ast.Tuple, ast.List)) and isinstance(e, (ast.Tuple, ast.List)) and len(g.target.elts) == len(e.elts) \
+                    and all(isinstance(t, ast.Name) for t in g.target.elts):
+                sub = {t.id: x for t, x in zip(g.target.elts, e.elts)}
+            else:
+                return None
+            try:
+                conds = [Subst({}, sub).visit(copy.deepcopy(c)) for c in g.ifs]
+                elt = Subst({}, sub).visit(copy.deepcopy(v.elt))
+            except NotInlinable:
+                return None
+            rows.append((conds[0] if len(conds) == 1 else ast.BoolOp(op=ast.And(), values=conds), elt))
+        return rows
+
+    def _comp_statements(self, target_name, rows, at):
+        out = [ast.Assign(targets=[ast.Name(id=target_name, ctx=ast.Store())], value=ast.List(elts=[], ctx=ast.Load()), lineno=at.lineno)]
+        for cond, elt in rows:
+            app = ast.Expr(value=ast.Call(func=ast.Attribute(value=ast.Name(id=target_name, ctx=ast.Load()), attr="append", ctx=ast.Load()), args=[elt], keywords=[]))
+            out.append(ast.If(test=cond, body=[app], orelse=[]))
+        for x in out:
+            ast.copy_location(x, at)
+            for y in ast.walk(x):
+                if not hasattr(y, "lineno"):
+                    ast.copy_location(y, at)
+            ast.fix_missing_locations(x)
+        return out
+
+    def generic_visit(self, node):
+        # statement lists: remember the statement that precedes the one being visited
+        for fld, old in ast.iter_fields(node):
+            if isinstance(old, list) and old and isinstance(old[0], ast.stmt):
+                new = []
+                prev = None
+                for st in old:
+                    self._prev_stmt = prev
+                    r = self.visit(st)
+                    prev = st
+                    if r is None:
+                        continue
+                    new.extend(r if isinstance(r, list) else [r])
+                old[:] = new
+            elif isinstance(old, list):
+                new = []
+                for v in old:
+                    if isinstance(v, ast.AST):
+                        v = self.visit(v)
+                        if v is None:
+                            continue
+                        if not isinstance(v, ast.AST):
+                            new.extend(v)
+                            continue
+                    new.append(v)
+                old[:] = new
+            elif isinstance(old, ast.AST):
+                r = self.visit(old)
+                if r is None:
+                    delattr(node, fld)
+                else:
+                    setattr(node, fld, r)
+        return node
 
     def block(self, stmts):
+        if self.body is None:
+            self.body = stmts
         out = []
+        prev = None
         for s in stmts:
+            self._prev_stmt = prev
+            prev = s
             r = self.visit(s)
             if r is None:
                 continue
             out.extend(r if isinstance(r, list) else [r])
         return out
 
+    # ---- functional idioms -> comprehensions (same values, same order, same laziness as far as the library can observe)
+    def _ext(self, e):
+        """dotted external name an expression resolves to ('itertools.chain', 'operator.attrgetter', ...) or builtin name"""
+        fi = self.nz.cur
+        if isinstance(e, ast.Name):
+            if e.id in ("map", "filter", "next", "list", "tuple", "any", "all", "sum", "sorted", "iter") and e.id not in self.nz.used_locals:
+                return e.id
+        if isinstance(e, (ast.Name, ast.Attribute)):
+            try:
+                r = self.nz.prog.resolve_name_expr(fi.module, e)
+            except Exception:
+                r = None
+            if r and r[0] == "external":
+                return r[1]
+        return None
+
+    def _fresh(self, base):
+        return self.nz.fresh(base)
+
+    def _apply(self, f, arg):
+        """the expression f(arg) with getter objects applied symbolically"""
+        if isinstance(f, ast.Call) and not f.keywords and f.args and all(isinstance(a, ast.Constant) and isinstance(a.value, str) and a.value.isidentifier() for a in f.args) \
+                and self._ext(f.func) == "operator.attrgetter":
+            parts = [ast.Attribute(value=copy.deepcopy(arg), attr=a.value, ctx=ast.Load()) for a in f.args]
+            return parts[0] if len(parts) == 1 else ast.Tuple(elts=parts, ctx=ast.Load())
+        if isinstance(f, ast.Call) and not f.keywords and f.args and all(isinstance(a, ast.Constant) for a in f.args) and self._ext(f.func) == "operator.itemgetter":
+            parts = [ast.Subscript(value=copy.deepcopy(arg), slice=a, ctx=ast.Load()) for a in f.args]
+            return parts[0] if len(parts) == 1 else ast.Tuple(elts=parts, ctx=ast.Load())
+        if isinstance(f, ast.Lambda):
+            return None
+        if is_atom(f):
+            return ast.Call(func=copy.deepcopy(f), args=[arg], keywords=[])
+        return None
+
+    def _module_literal(self, e):
+        """the literal tuple / list of constants a module-level name stands for (else the expression itself)"""
+        if isinstance(e, (ast.Name, ast.Attribute)):
+            fi = self.nz.cur
+            if isinstance(e, ast.Name) and e.id in self.nz.used_locals:
+                return e
+            try:
+                r = self.nz.prog.resolve_name_expr(fi.module, e)
+            except Exception:
+                r = None
+            if r and r[0] == "const" and r[1].const_multi.get(r[2], 0) == 1:
+                v = r[1].consts.get(r[2])
+                if isinstance(v, (ast.Tuple, ast.List)) and all(isinstance(x, ast.Constant) for x in v.elts):
+                    return v
+        return e
+
+    def _module_getter(self, f):
+        """operator.attrgetter(...) / itemgetter(...) call a module-level name is bound to, with *CONSTANT arguments expanded"""
+        if not isinstance(f, (ast.Name, ast.Attribute)):
+            return None
+        fi = self.nz.cur
+        if isinstance(f, ast.Name) and f.id in self.nz.used_locals:
+            return None
+        try:
+            r = self.nz.prog.resolve_name_expr(fi.module, f)
+        except Exception:
+            return None
+        if not (r and r[0] == "const" and r[1].const_multi.get(r[2], 0) == 1):
+            return None
+        v = r[1].consts.get(r[2])
+        if not (isinstance(v, ast.Call) and not v.keywords):
+            return None
+        try:
+            rr = self.nz.prog.resolve_name_expr(r[1], v.func)
+        except Exception:
+            rr = None
+        if not (rr and rr[0] == "external" and rr[1] in ("operator.attrgetter", "operator.itemgetter")):
+            return None
+        args = []
+        for a in v.args:
+            if isinstance(a, ast.Starred):
+                try:
+                    c = self.nz.prog.const(r[1], a.value)
+                except Exception:
+                    return None
+                if not isinstance(c, (tuple, list)):
+                    return None
+                args.extend(ast.Constant(value=x) for x in c)
+            else:
+                args.append(a)
+        func = ast.Attribute(value=ast.Name(id="operator", ctx=ast.Load()), attr=rr[1].split(".")[1], ctx=ast.Load())
+        g = ast.Call(func=func, args=args, keywords=[])
+        g._sa_getter = rr[1]
+        return g
+
+    def _lower_functional(self, n):
+        # a module-level getter object applied to one argument
+        if len(n.args) == 1 and not n.keywords and not isinstance(n.args[0], ast.Starred):
+            g = self._module_getter(n.func)
+            if g is not None:
+                kind = g._sa_getter
+                if kind == "operator.attrgetter" and all(isinstance(a, ast.Constant) and isinstance(a.value, str) and a.value.isidentifier() for a in g.args):
+                    parts = [ast.Attribute(value=copy.deepcopy(n.args[0]), attr=a.value, ctx=ast.Load()) for a in g.args]
+                    return parts[0] if len(parts) == 1 else ast.Tuple(elts=parts, ctx=ast.Load())
+                if kind == "operator.itemgetter" and all(isinstance(a, ast.Constant) for a in g.args):
+                    parts = [ast.Subscript(value=copy.deepcopy(n.args[0]), slice=a, ctx=ast.Load()) for a in g.args]
+                    return parts[0] if len(parts) == 1 else ast.Tuple(elts=parts, ctx=ast.Load())
+        if isinstance(n.func, ast.Name) and n.func.id == "zip" and "zip" not in self.nz.used_locals and not n.keywords and len(n.args) >= 2:
+            lits = [self._module_literal(a) for a in n.args]
+            if all(isinstance(x, (ast.Tuple, ast.List)) and not any(isinstance(e, ast.Starred) for e in x.elts) for x in lits) \
+                    and len({len(x.elts) for x in lits}) == 1 and all(is_pure(e) for x in lits for e in x.elts) and len(lits[0].elts) <= MAX_UNROLL:
+                return ast.Tuple(elts=[ast.Tuple(elts=[copy.deepcopy(x.elts[i]) for x in lits], ctx=ast.Load()) for i in range(len(lits[0].elts))], ctx=ast.Load())
+        name = self._ext(n.func)
+        if name is None or n.keywords:
+            return None
+        A = n.args
+        if name == "map" and len(A) == 2:
+            v = self._fresh("x")
+            body = self._apply(A[0], ast.Name(id=v, ctx=ast.Load()))
+            if body is not None:
+                return ast.GeneratorExp(elt=body, generators=[ast.comprehension(target=ast.Name(id=v, ctx=ast.Store()), iter=A[1], ifs=[], is_async=0)])
+        if name in ("filter", "itertools.filterfalse") and len(A) == 2:
+            v = self._fresh("x")
+            ref = ast.Name(id=v, ctx=ast.Load())
+            cond = ref if (isinstance(A[0], ast.Constant) and A[0].value is None) else self._apply(A[0], ref)
+            if cond is not None:
+                if name != "filter":
+                    cond = ast.UnaryOp(op=ast.Not(), operand=cond)
+                return ast.GeneratorExp(elt=ast.Name(id=v, ctx=ast.Load()), generators=[ast.comprehension(target=ast.Name(id=v, ctx=ast.Store()), iter=A[1], ifs=[cond], is_async=0)])
+        if name == "itertools.chain.from_iterable" and len(A) == 1:
+            x, y = self._fresh("x"), self._fresh("y")
+            inner = A[0]
+            if isinstance(inner, ast.GeneratorExp) and len(inner.generators) == 1 and not inner.generators[0].is_async:
+                g = inner.generators[0]
+                return ast.GeneratorExp(elt=ast.Name(id=y, ctx=ast.Load()), generators=[g, ast.comprehension(target=ast.Name(id=y, ctx=ast.Store()), iter=inner.elt, ifs=[], is_async=0)])
+            return ast.GeneratorExp(elt=ast.Name(id=y, ctx=ast.Load()), generators=[
+                ast.comprehension(target=ast.Name(id=x, ctx=ast.Store()), iter=inner, ifs=[], is_async=0),
+                ast.comprehension(target=ast.Name(id=y, ctx=ast.Store()), iter=ast.Name(id=x, ctx=ast.Load()), ifs=[], is_async=0)])
+        if name == "itertools.chain" and len(A) >= 1 and not any(isinstance(a, ast.Starred) for a in A):
+            x, y = self._fresh("x"), self._fresh("y")
+            return ast.GeneratorExp(elt=ast.Name(id=y, ctx=ast.Load()), generators=[
+                ast.comprehension(target=ast.Name(id=x, ctx=ast.Store()), iter=ast.Tuple(elts=list(A), ctx=ast.Load()), ifs=[], is_async=0),
+                ast.comprehension(target=ast.Name(id=y, ctx=ast.Store()), iter=ast.Name(id=x, ctx=ast.Load()), ifs=[], is_async=0)])
+        if name == "list" and len(A) == 1 and isinstance(A[0], ast.GeneratorExp):
+            return ast.ListComp(elt=A[0].elt, generators=A[0].generators)
+        # getter objects called directly: attrgetter("a")(x)
+        if isinstance(n.func, ast.Call) and len(A) == 1:
+            r = self._apply(n.func, A[0])
+            if r is not None and not isinstance(r, ast.Call):
+                return r
+        return None
+
     def visit_Call(self, n):
         n = self.generic_visit(n)
+        low = self._lower_functional(n)
+        if low is not None:
+            self.nz._local_touched = True
+            self.nz.log.setdefault(self.nz.cur.qname, []).append(f"functional idiom `{norm(n.func)}` at line {getattr(n, 'lineno', '?')} written as a comprehension")
+            for x in ast.walk(low):
+                if not hasattr(x, "lineno"):
+                    ast.copy_location(x, n)
+            return low
         if isinstance(n.func, ast.Name) and n.func.id == "getattr" and len(n.args) == 2 and not n.keywords \
                 and isinstance(n.args[1], ast.Constant) and isinstance(n.args[1].value, str) and n.args[1].value.isidentifier():
             return ast.copy_location(ast.Attribute(value=n.args[0], attr=n.args[1].value, ctx=ast.Load()), n)
@@ -246,6 +492,32 @@ class Fold(ast.NodeTransformer):
             i = n.slice.value
             if -len(n.value.elts) <= i < len(n.value.elts):
                 return n.value.elts[i]
+        return n
+
+    def visit_ListComp(self, n):
+        n = self.generic_visit(n)
+        # [elt for t in (a, b, c)] over a literal: the list literal of the substituted elements
+        if len(n.generators) == 1 and not n.generators[0].ifs and not n.generators[0].is_async:
+            g = n.generators[0]
+            lit = self._module_literal(g.iter)
+            if isinstance(lit, (ast.Tuple, ast.List)) and 0 < len(lit.elts) <= MAX_UNROLL and not any(isinstance(e, ast.Starred) for e in lit.elts) \
+                    and all(is_pure(e) for e in lit.elts):
+                elts = []
+                for e in lit.elts:
+                    if isinstance(g.target, ast.Name):
+                        sub = {g.target.id: e}
+                    elif isinstance(g.target, (ast.Tuple, ast.List)) and isinstance(e, (ast.Tuple, ast.List)) and len(g.target.elts) == len(e.elts) \
+                            and all(isinstance(t, ast.Name) for t in g.target.elts):
+                        sub = {t.id: v for t, v in zip(g.target.elts, e.elts)}
+                    else:
+                        return n
+                    try:
+                        elts.append(Subst({}, sub).visit(copy.deepcopy(n.elt)))
+                    except NotInlinable:
+                        return n
+                self.nz._local_touched = True
+                self.nz.log.setdefault(self.nz.cur.qname, []).append(f"comprehension over a literal at line {getattr(n, 'lineno', '?')} unrolled")
+                return ast.copy_location(ast.List(elts=elts, ctx=ast.Load()), n)
         return n
 
     def visit_Compare(self, n):
@@ -285,6 +557,22 @@ class Fold(ast.NodeTransformer):
 
     def visit_Assign(self, n):
         n = self.generic_visit(n)
+        if len(n.targets) == 1 and isinstance(n.targets[0], ast.Name):
+            rows = self._filtered_comp(n.value)
+            if rows is not None and not any(isinstance(x, ast.Name) and x.id == n.targets[0].id for c_, e_ in rows for x in list(ast.walk(c_)) + list(ast.walk(e_))):
+                self.nz._local_touched = True
+                return self._comp_statements(n.targets[0].id, rows, n)
+        r = self._next_gen(n.value) if len(n.targets) == 1 and isinstance(n.targets[0], ast.Name) else None
+        if r is not None:
+            gen, default = r
+            t = n.targets[0]
+            if not any(isinstance(x, ast.Name) and x.id == t.id for x in ast.walk(gen)):
+                hit = [ast.copy_location(ast.Assign(targets=[t], value=gen.elt, lineno=n.lineno), n), ast.copy_location(ast.Break(), n)]
+                loop = self._gen_loop(gen, hit, n)
+                if len(gen.generators) == 1:
+                    loop[0].orelse = [ast.copy_location(ast.Assign(targets=[copy.deepcopy(t)], value=default, lineno=n.lineno), n)]
+                    self.nz._local_touched = True
+                    return loop
         # a.f = x = E : x = E; a.f = x   (one evaluation of E, same objects bound)
         if len(n.targets) > 1:
             names = [t for t in n.targets if isinstance(t, ast.Name)]
@@ -312,9 +600,73 @@ class Fold(ast.NodeTransformer):
                 return out
         return n
 
+    def visit_For(self, n):
+        n = self.generic_visit(n)
+        it = n.iter
+        # for v in (x for x in XS if cond):  ==  for v in XS: if cond[v/x]: ...
+        if isinstance(it, ast.GeneratorExp) and len(it.generators) == 1 and isinstance(it.elt, ast.Name) and isinstance(it.generators[0].target, ast.Name) \
+                and it.elt.id == it.generators[0].target.id and isinstance(n.target, ast.Name) and not n.orelse and not it.generators[0].is_async:
+            g = it.generators[0]
+            try:
+                conds = [Subst({g.target.id: n.target.id}, {}).visit(copy.deepcopy(c)) for c in g.ifs]
+            except NotInlinable:
+                return n
+            n.iter = g.iter
+            if conds:
+                test = conds[0] if len(conds) == 1 else ast.BoolOp(op=ast.And(), values=conds)
+                wrapped = ast.copy_location(ast.If(test=test, body=n.body, orelse=[]), n)
+                ast.fix_missing_locations(wrapped)
+                n.body = [wrapped]
+            self.nz._local_touched = True
+        return n
+
+    def _next_gen(self, e):
+        """(generator expression, default) for next((elt for ...), default)"""
+        if isinstance(e, ast.Call) and self._ext(e.func) == "next" and len(e.args) == 2 and not e.keywords and isinstance(e.args[0], ast.GeneratorExp) \
+                and not any(g.is_async for g in e.args[0].generators):
+            return e.args[0], e.args[1]
+        return None
+
+    def _gen_loop(self, gen, leaf_stmts, at):
+        """nested for/if statements running ``leaf_stmts`` for every element of the generator expression"""
+        body = leaf_stmts
+        for g in reversed(gen.generators):
+            if g.ifs:
+                test = g.ifs[0] if len(g.ifs) == 1 else ast.BoolOp(op=ast.And(), values=list(g.ifs))
+                body = [ast.If(test=test, body=body, orelse=[])]
+            body = [ast.For(target=g.target, iter=g.iter, body=body, orelse=[], type_comment=None)]
+        for b in body:
+            for x in ast.walk(b):
+                if not hasattr(x, "lineno"):
+                    ast.copy_location(x, at)
+        return body
+
+    def visit_Return(self, n):
+        n = self.generic_visit(n)
+        rows = self._filtered_comp(n.value) if n.value is not None else None
+        if rows is not None:
+            tmp = self.nz.fresh("_result")
+            self.nz._local_touched = True
+            self.nz.log.setdefault(self.nz.cur.qname, []).append(f"filtered comprehension over a literal at line {getattr(n, 'lineno', '?')} written as guarded appends")
+            return self._comp_statements(tmp, rows, n) + [ast.copy_location(ast.Return(value=ast.copy_location(ast.Name(id=tmp, ctx=ast.Load()), n)), n)]
+        r = self._next_gen(n.value) if n.value is not None else None
+        if r is not None:
+            gen, default = r
+            loop = self._gen_loop(gen, [ast.copy_location(ast.Return(value=gen.elt), n)], n)
+            self.nz._local_touched = True
+            return loop + [ast.copy_location(ast.Return(value=default), n)]
+        return n
+
     def visit_Expr(self, n):
         n = self.generic_visit(n)
         c = n.value
+        # xs.extend(elt for ... )  ==  for ...: xs.append(elt)
+        if isinstance(c, ast.Call) and isinstance(c.func, ast.Attribute) and c.func.attr == "extend" and len(c.args) == 1 and not c.keywords \
+                and isinstance(c.args[0], (ast.GeneratorExp, ast.ListComp)) and is_atom(c.func.value) and not any(g.is_async for g in c.args[0].generators):
+            gen = c.args[0]
+            app = ast.Expr(value=ast.Call(func=ast.Attribute(value=copy.deepcopy(c.func.value), attr="append", ctx=ast.Load()), args=[gen.elt], keywords=[]))
+            self.nz._local_touched = True
+            return self._gen_loop(gen, [ast.copy_location(app, n)], n)
         if isinstance(c, ast.Call) and isinstance(c.func, ast.Attribute) and c.func.attr == "extend" and len(c.args) == 1 and not c.keywords \
                 and isinstance(c.args[0], (ast.List, ast.Tuple)) and not any(isinstance(x, ast.Starred) for x in c.args[0].elts) and is_atom(c.func.value):
             out = []
